@@ -13,6 +13,9 @@ import (
 var ttlBoundary = []int64{-2 * int64(time.Second), -int64(time.Second), -1, 0, 1, 2, 7, 100, int64(time.Millisecond), int64(time.Second), int64(time.Hour)}
 
 func (g *genCtx) ttlWide(prop string) int64 {
+	if prop == "C01" && g.r.Bool(0.04) {
+		return math.MaxInt64 - g.r.Int63n(int64(200*365*24)*int64(time.Hour)) // now+d is not representable
+	}
 	if prop == "C09" {
 		switch g.r.Intn(10) {
 		case 0:
@@ -48,7 +51,9 @@ func (g *genCtx) seqCtor(kind string, prop string) CacheCtor {
 }
 
 func (g *genCtx) seqHash(cfg *InstCfg) {
-	switch g.pick([]int{50, 25, 25}) {
+	switch g.pick([]int{45, 20, 20, 15}) {
+	case 3:
+		cfg.HashMode, cfg.CollideN = "split", 1+g.r.Intn(2)
 	case 0:
 		cfg.HashMode = "det"
 	case 1:
@@ -389,6 +394,9 @@ func (g *genCtx) mapInst(kind string, tag uint64) InstCfg {
 	if kind != "map" {
 		cfg.Hasher = hasherKinds[g.r.Intn(len(hasherKinds))]
 	}
+	if g.r.Bool(0.08) {
+		cfg.Hasher = "growonly"
+	}
 	cfg.MinLen = []int{1, 2, 4, 32, 32}[g.r.Intn(5)]
 	cfg.UsePre = g.r.Bool(0.5)
 	if cfg.UsePre {
@@ -420,7 +428,9 @@ func genTwin(seed uint64, tier string) *SeqScenario {
 	sc.Mode = "twin"
 	b := sc.A
 	b.Kind = "mapof_string_any"
-	b.Hasher = ""
+	if b.Hasher != "growonly" {
+		b.Hasher = ""
+	}
 	sc.B = &b
 	return sc
 }
